@@ -136,6 +136,9 @@ func (f *Frame) execInstr(ins ssa.Instruction, st *State, b *ssa.BasicBlock, idx
 		f.atPoint(f.callOrd[ins]+" before", st, b, idx)
 		f.beforeArgs = nil
 		res := f.execCall(ins, ins.Common(), st)
+		if res.Ty == nil && len(res.Tup) == 0 {
+			res.Ty = ins.Type()
+		}
 		f.set(ins, res)
 		f.lastCallResult = &res
 		f.atPoint(f.callOrd[ins], st, b, idx+1)
@@ -337,14 +340,21 @@ func (f *Frame) execTypeAssert(ins *ssa.TypeAssert, st *State) {
 	ok := u.defs.Define("ta_ok", Eq(App("ityp", SInt, x.T), id))
 	val := u.unboxIface(x.T, ins.AssertedType)
 	if ins.CommaOk {
-		f.set(ins, Val{Tup: []Val{{T: Ite(ok, val, zeroOf(sortOf(ins.AssertedType)))}, {T: ok}}})
+		r := u.defs.Define("tav", Ite(ok, val, zeroOf(sortOf(ins.AssertedType))))
+		// a reference extracted from an interface value exists already: it is none of the allocations still to come
+		u.assume(st, typeFacts(r, ins.AssertedType))
+		u.assume(st, u.ptrBoundIn(st, r, ins.AssertedType))
+		f.set(ins, Val{Tup: []Val{{T: r}, {T: ok}}})
 		return
 	}
 	if u.safe["typeassert"] {
 		u.addObl(st, "safe:typeassert", f.siteLabel("typeassert", ins), ok, nil)
 	}
 	u.assume(st, ok)
-	f.set(ins, Val{T: u.defs.Define("ta", val)})
+	r := u.defs.Define("ta", val)
+	u.assume(st, typeFacts(r, ins.AssertedType))
+	u.assume(st, u.ptrBoundIn(st, r, ins.AssertedType))
+	f.set(ins, Val{T: r})
 }
 
 func (f *Frame) execUnOp(ins *ssa.UnOp, st *State) {
@@ -357,7 +367,7 @@ func (f *Frame) execUnOp(ins *ssa.UnOp, st *State) {
 		if v.T.S != "" {
 			v.T = u.defs.Define("ld_"+ins.Name(), v.T)
 			u.assume(st, typeFacts(v.T, elem))
-			u.assume(st, u.ptrBound(v.T, elem))
+			u.assume(st, u.ptrBoundIn(st, v.T, elem))
 			// a reference read from a heap class this unit has not written yet existed before the call: it is
 			// none of the unit's own allocations
 			if x.LV != nil && x.LV.Class != "" && (x.LV.Kind == "field" || x.LV.Kind == "elem" || x.LV.Kind == "ptr") {
